@@ -18,6 +18,15 @@ def guard_constants(P, fn):
     for B in bodies_of_fn(P, fn):
         for bb in sorted(B.live_blocks()):
             t = B.blocks[bb]['t']
+            if t['k'] == 'switch' and t['dty'] != 'bool':
+                # `matches!(x, Term::Nil)` / `if let Term::Nil = x`: the same question as `x == Term::Nil`
+                sd = B.switch_on_discr(bb)
+                if sd and sd[1] in (OWNED, BORROWED) and len(sd[2]) == 1:
+                    names_ = {int(v['discr']): v['n'] for v in P.F.adts[sd[1]]['variants']}
+                    vn = names_.get(sd[2][0][0])
+                    if vn and not P.F.adts[sd[1]]['variants'][[int(v['discr']) for v in P.F.adts[sd[1]]['variants']].index(sd[2][0][0])]['fields']:
+                        out.append(('call', 'eq', vn, False))
+                continue
             if t['k'] != 'switch' or t['dty'] != 'bool':
                 continue
             src, neg = B.bool_source(t['d'])
